@@ -123,6 +123,19 @@ def run(plan):
             dev.hs_script = []
             supplied = tok2
         else:
+            if plan.get("lifetime") is not None:
+                # a connection-lifetime limit is (or was) configured; it says when to reconnect, not whether a genuine
+                # handshake counts
+                ac.set_max_connection_lifetime(plan["lifetime"])
+                if plan.get("lifetime_then_none"):
+                    o0 = await s.do({"op": "auth"})
+                    if o0.kind != "ok":
+                        res.fail(f"genuine handshake raised {o0.exc_type}", repr(o0.exc))
+                        return
+                    ac.set_max_connection_lifetime(None)
+                    await asyncio.sleep(plan["lifetime"] + 5)
+                    first_log = len(dev.log)
+                w.fire("connection_lifetime_configured_during_handshake")
             if alt.get("refused_first"):
                 # history on this object: an unknown token is refused with an ERROR packet and the unit hangs up;
                 # a moment later the genuine credentials are tried
@@ -177,7 +190,7 @@ def run(plan):
             if scenario == "stored" and (ac.token, ac.key) != stored:
                 res.fail("previously stored token/key replaced by a failed authentication", f"{alt['name']}")
                 return
-        if o.kind == "ok" and any(x.get("post_push") for x in (alt.get("hs_list") or [])):
+        if o.kind == "ok" and plan.get("lifetime") is None and any(x.get("post_push") for x in (alt.get("hs_list") or [])):
             # the status report the unit pushed right behind its handshake reply was encrypted under the new session
             # key: it is readable, and is handed out with the next exchange's frames
             frame = w.ns.command.GetStateCommand().tobytes().hex()
@@ -246,7 +259,8 @@ def run(plan):
         res.fail("exception escaped data_received: " + w.net.protocol_exceptions[0][1], repr(w.net.protocol_exceptions[0]))
     res.take(w)
     res.add_fired(dev.fired)
-    res.key = (plan["config"].get("key"), plan["config"].get("cred_form"), scenario, alt["name"], bool(plan.get("expired")))
+    res.key = (plan["config"].get("key"), plan["config"].get("cred_form"), scenario, alt["name"], bool(plan.get("expired")),
+               plan.get("lifetime"), bool(plan.get("lifetime_then_none")))
     res.nontrivial = True
     return res
 
@@ -265,7 +279,7 @@ def space(tier):
 
     def rnd(j, rng):
         alt = rng.choice(ALTS) if rng.random() < 0.9 else {"name": "genuine"}
-        p = {"config": {"version": 3, "cred_form": rng.choice(["hex", "bytes"]),
+        p = {"config": {"version": 3, "cred_form": rng.choice(["hex", "bytes", "hex", "bytes", "hex_bytes", "bytes_hex"]),
                         "token": rand_bytes(rng, 64).hex(), "key": rand_bytes(rng, 32).hex(),
                         "device_id": rand_id(rng)}, "scenario": rng.choice(["fresh", "stored"]), "alt": alt,
              "expired": rng.random() < 0.4}
@@ -277,6 +291,10 @@ def space(tier):
                 p["config"]["token"] = "".join(rng.choice(alpha) for _ in range(64)).encode().hex()
             p["config"]["cred_form"] = "bytes"
             p["alt"] = rng.choice([{"name": "genuine"}, alt])
+        if p["scenario"] == "fresh" and rng.random() < 0.15:
+            p["lifetime"] = rng.choice([1, 2, 5, 30])
+            # (the variant with an earlier successful handshake only where the judged one is genuine too)
+            p["lifetime_then_none"] = rng.random() < 0.4 and (p["alt"]["name"] == "genuine" or bool(p["alt"].get("expect_success")))
         return p
     sp.add("random_keys", 8000 if tier == "quick" else 1_500_000, rnd)
     return sp
